@@ -241,7 +241,7 @@ def substances_ok(M, texts, natural):
 
 def run_case(case, ctx):
     M, T = ctx['M'], ctx['T']
-    natural, k = case['natural'], case['k']
+    natural, k = case['natural'], case.get('k', 1.0)
     mon = dict(fraction_rows_checked=0, sum_rows_checked=0, scaling_twins_compared=0, duality_twins_compared=0)
     devs = []
     classes = {'natural' if natural else 'most-abundant', 'scaling-k<1' if k < 1 else 'scaling-k>1'}
